@@ -32,11 +32,13 @@ KERNELS = {
     "k_app_pointer": ["any64"], "k_accept": ["any64"],
     "k_plain_plus_ptr": ["ptr", "n32"],
     "k_staticcast_mi": ["ptr"],
+    "k_addrof_arr300_schar": ["ptr", "n8"], "k_addrof_arr40000_short": ["ptr", "n16"],
 }
 OPTIONAL = {"k_plain_plus_ptr"}
 # offsets added by derived-address operations: the result may leave the region only because the
 # *object* designated by an inside pointer does not fit before the end of the region
-DERIVED = {"k_addrof_field_a": 0, "k_addrof_field_c": 8, "k_addrof_arr_elem": None, "k_staticcast_mi": 56}
+DERIVED = {"k_addrof_field_a": 0, "k_addrof_field_c": 8, "k_addrof_arr_elem": None, "k_staticcast_mi": 56, "k_addrof_arr300_schar": None,
+           "k_addrof_arr40000_short": None}
 
 
 def check_op(ctx, k, log, room_scale=1):
@@ -71,6 +73,10 @@ def check_op(ctx, k, log, room_scale=1):
             v = ctx.sym(nm, 32)
             ctx.assume(z3.ULT(v, 3))
             vec.append([0, 1, 2])
+        elif kind in ("n8", "n16"):
+            v = ctx.sym(nm, int(kind[1:]))
+            vec.append([0, 1, 2, 0x7F, 0x80, 0xFD, 0xFF] if kind == "n8" else [0, 1, 0x7FFF, 0x8000, 0xFFFF, 39999])
+            nidx = v
         elif kind == "n32":
             v = ctx.sym(nm, 32)
             vec.append([0, 1, 2, 3, 0xFFFFFFFF, 0x7FFFFFFF, 0x80000000, size // 4 if log < 32 else 0x40000000])
@@ -84,7 +90,7 @@ def check_op(ctx, k, log, room_scale=1):
     known = []
     if k in DERIVED and ptr is not None:
         # object designated by the input pointer does not fit inside the region
-        objsize = {"k_addrof_arr_elem": 16, "k_staticcast_mi": 64}.get(k, 12)
+        objsize = {"k_addrof_arr_elem": 16, "k_staticcast_mi": 64, "k_addrof_arr300_schar": 1200, "k_addrof_arr40000_short": 40000}.get(k, 12)
         known = [("C03-object-straddles-end", z3.UGT(ptr - base, BV(size - objsize, 64)))]
     for q in paths:
         if q.status == "ret":
